@@ -274,7 +274,8 @@ def _run(case, tap, G, VMachine, MpfCrash):
 
     S = {"G": 0, "plist": None, "last": {}, "phase": "none", "owner": None, "prev": None, "park": {}, "model": {},
          "ball": False, "started": [], "had_ball": set(), "loaded_once": set(), "act": {"base": 0, "m2": 0},
-         "act_seen": {"base": 0, "m2": 0}, "m2_at_end": {}, "epoch": 0, "stamp": {}, "abort": False, "survivor": None, "game_over": False, "opno": -1, "op": None, "known": set()}
+         "act_seen": {"base": 0, "m2": 0}, "m2_at_end": {}, "epoch": 0, "stamp": {}, "act_count": {},
+         "abort": False, "survivor": None, "game_over": False, "opno": -1, "op": None, "known": set()}
 
     with VMachine(G.machine_config(cfg), modes={"base": cfg["base"], "m2": cfg["m2"]}, kind="fake") as vm:
         m = vm.machine
@@ -435,6 +436,8 @@ def _run(case, tap, G, VMachine, MpfCrash):
         def on_mode_started(which):
             def h(**kwargs):
                 S["act"][which] += 1
+                key = (S["G"], S["owner"], which)       # every activation counts, also one that ends within the same op
+                S["act_count"][key] = S["act_count"].get(key, 0) + 1
                 S["stamp"][which] = {"epoch": S["epoch"], "owner": S["owner"], "ball_in_progress": S["ball"],
                                      "phase": S["phase"], "op_index": S["opno"]}
             return h
@@ -540,7 +543,7 @@ def _run(case, tap, G, VMachine, MpfCrash):
                 if not mode_active(mode) or S["phase"] != "turn" or n not in now:
                     continue        # (a mode may also be started while a held ball end is still waiting)
                 snap = now[n]
-                first = (S["G"], n, mode) not in S["loaded_once"]
+                first = (S["G"], n, mode) not in S["loaded_once"] and S["act_count"].get((S["G"], n, mode), 0) <= 1
                 S["loaded_once"].add((S["G"], n, mode))
                 for d in devs:
                     if d["mode"] != mode:
